@@ -200,18 +200,35 @@ class Variant:
         self.single_char = single_char
 
 
-def _ascii_only(s: str) -> Optional[Tuple[int, ...]]:
-    return cps(s) if all(ord(c) <= 127 for c in s) else None
+def _reindented(how: str, lit: str) -> str:
+    """The literal after the generator's own re-indentation of the code that holds it (what reaches the generated
+    file): ``textwrap.indent`` / ``common.indent_but_first_line`` split the text with ``str.splitlines``."""
+    import textwrap
 
+    if how == "textwrap":
+        out = textwrap.indent(lit, "    ")
+        return out[4:] if out.startswith("    ") else out
+    from aas_core_codegen import common as cc
+
+    out = cc.indent_but_first_line("X\n" + lit, "    ")
+    rest = out.split("\n", 1)[1] if "\n" in out else ""
+    return rest[4:] if rest.startswith("    ") else rest
+
+
+#: variants without a Lean model of their own: the modelled encoder followed by the re-indentation of the generator
+UNMODELLED_VARIANTS = {"py:reindent:textwrap", "py:reindent:common"}
 
 VARIANTS: List[Variant] = [
     Variant("py:n:0:0", lambda s: _py().string_literal(s), cps, "py"),
+    Variant("py:reindent:textwrap", lambda s: _reindented("textwrap", _py().string_literal(s)), cps, "py"),
+    Variant("py:reindent:common", lambda s: _reindented("common", _py().string_literal(s)), cps, "py"),
     Variant("py:s:0:0", lambda s: _py().string_literal(s, _pyq("s")), cps, "py"),
     Variant("py:d:0:0", lambda s: _py().string_literal(s, _pyq("d")), cps, "py"),
     Variant("py:n:0:1", lambda s: _py().string_literal(s, duplicate_curly_brackets=True), cps, "pyf"),
     Variant("py:d:0:1", lambda s: _py().string_literal(s, _pyq("d"), duplicate_curly_brackets=True), cps, "pyf"),
     Variant("cppw", lambda s: _cpp().wstring_literal(s), cps, "cppw"),
-    Variant("cppn", lambda s: _cpp().string_literal(s), _ascii_only, "cppn"),
+    # narrow literals denote UTF-8 bytes (since the repair of C02-F2 for every scalar value; a surrogate must raise)
+    Variant("cppn", lambda s: _cpp().string_literal(s), utf8, "cppn"),
     Variant("cppc", lambda s: _cpp().wchar_literal(s), cps, "cppc", single_char=True),
     Variant("cs", lambda s: _cs().string_literal(s), utf16, "cs"),
     Variant("java", lambda s: _java().string_literal(s), utf16, "java"),
@@ -492,9 +509,6 @@ def run_strings(ctx: Ctx, with_model: bool, items: Optional[List[Tuple[str, str]
         sel = [(s, st) for (s, st) in items if (len(s) == 1 or st == "corpus" or s in ("", "ab")) or not v.single_char]
         if v.name not in TRIPLES_FOR and ctx.tier == "quick":
             sel = [(s, st) for (s, st) in sel if st != "enumerated3"]
-        if v.name == "cppn":
-            # narrow literals: ASCII strings, plus all single characters / a part of the rest for the error path
-            sel = [(s, st) for k, (s, st) in enumerate(sel) if all(ord(c) < 128 for c in s) or len(s) <= 1 or k % 7 == 0]
         outs = [call(v.enc, s) for s, _ in sel]
         idx = [k for k, ((s, st), o) in enumerate(zip(sel, outs)) if o[0] == "ok" and _thin(ctx, v.reader, st, k)]
         if v.reader == "java" and ctx.tier == "quick":
@@ -508,7 +522,7 @@ def run_strings(ctx: Ctx, with_model: bool, items: Optional[List[Tuple[str, str]
     ])
     for (v, sel, outs, idx), vals in zip(plan, all_vals):
         # correspondence of the encoder
-        if with_model:
+        if with_model and v.name not in UNMODELLED_VARIANTS:
             mouts = ctx.model([_enc_line(v.name, s) for s, _ in sel])
             for (s, st), o, m in zip(sel, outs, mouts):
                 ctx.traces_validated += 1
@@ -725,7 +739,8 @@ def replay(ctx: Ctx, data: Dict[str, Any]) -> Any:
             res["read_back"] = val
             res["oracle"] = judge_one(v, s, o, val)
             if ctx.driver_ok:
-                res["model"] = ctx.model([_enc_line(name, s)])[0]
+                if name not in UNMODELLED_VARIANTS:
+                    res["model"] = ctx.model([_enc_line(name, s)])[0]
                 if o[0] == "ok":
                     res["model_decoder"] = ctx.model([f"dec {v.reader} {enc_text(o[1])}"])[0]
         else:
